@@ -693,3 +693,105 @@ func (e *Engine) sprintf(format string, args []Value) Value {
 	}
 	return acc
 }
+
+// scanInteger models fmt's integer scanning (verb %v): optional sign, then a
+// base prefix (0b, 0o, 0x, or a bare leading 0 meaning octal), then the longest
+// run of digits valid in that base; what follows is left unread.
+func (e *Engine) scanInteger(sv Value) (Value, bool) {
+	sv = normStr(sv)
+	var bs []Value
+	switch x := sv.(type) {
+	case string:
+		b, _ := toByteStr(x)
+		bs = b.B
+	case *ByteStr:
+		bs = x.bytes()
+	default:
+		panic(engineErr("fmt.Sscan of %s", describeValue(sv)))
+	}
+	conc := func(i int) (byte, bool) {
+		if i < len(bs) {
+			if c, ok := bs[i].(uint64); ok {
+				return byte(c), true
+			}
+		}
+		return 0, false
+	}
+	pos := 0
+	for {
+		c, ok := conc(pos)
+		if !ok || (c != ' ' && c != '\t' && c != '\n' && c != '\r') {
+			break
+		}
+		pos++
+	}
+	neg := false
+	if c, ok := conc(pos); ok && (c == '-' || c == '+') {
+		neg = c == '-'
+		pos++
+	}
+	if pos >= len(bs) {
+		return nil, false
+	}
+	base := int64(10)
+	sawZero := false
+	if e.branch(e.byteEq(bs[pos], uint64('0'))) {
+		sawZero = true
+		pos++
+		base = 8
+		if c, ok := conc(pos); ok {
+			switch c {
+			case 'b', 'B':
+				base = 2
+				pos++
+			case 'o', 'O':
+				base = 8
+				pos++
+			case 'x', 'X':
+				base = 16
+				pos++
+			}
+		}
+	}
+	if base == 16 {
+		panic(engineErr("fmt.Sscan of hexadecimal input not modelled"))
+	}
+	sum := e.ts.Int(0)
+	nd := 0
+	for pos < len(bs) {
+		if c, ok := conc(pos); ok && c == '_' && (nd > 0 || sawZero) {
+			pos++
+			continue
+		}
+		b := e.byteInt(bs[pos])
+		okDigit := e.simplify(e.ts.And(e.ts.Le(e.ts.Int(48), b), e.ts.Le(b, e.ts.Int(48+base-1))), nil)
+		if !e.branch(okDigit) {
+			break
+		}
+		d := e.ts.Sub(b, e.ts.Int(48))
+		d.Lo, d.Hi = big.NewInt(0), big.NewInt(base-1)
+		sum = e.ts.Add(e.ts.Mul(sum, e.ts.Int(base)), d)
+		nd++
+		pos++
+		if nd > 21 {
+			break
+		}
+	}
+	if nd == 0 && !sawZero {
+		return nil, false
+	}
+	if neg {
+		sum = e.ts.Neg(sum)
+	}
+	lo, hi := e.ts.IntBig(new(big.Int).Neg(twoTo63)), e.ts.IntBig(new(big.Int).Sub(twoTo63, big1))
+	if !e.branch(e.simplify(e.ts.And(e.ts.Le(lo, sum), e.ts.Le(sum, hi)), nil)) {
+		return nil, false
+	}
+	if sum.Lo == nil || sum.Lo.Cmp(lo.I) < 0 {
+		sum.Lo = lo.I
+	}
+	if sum.Hi == nil || sum.Hi.Cmp(hi.I) > 0 {
+		sum.Hi = hi.I
+	}
+	return e.simplify(sum, nil), true
+}
